@@ -1587,12 +1587,7 @@ func vamanaClassification(w *load.World, c *core.Collector) {
 	props := []string{"C03", "C10"}
 	var f *ssa.Function
 	if top := findFn(w, "(*shard/index/vamana.IndexVamana).insertUpdateDelete"); top != nil {
-		for _, a := range top.AnonFuncs {
-			res := a.Signature.Results()
-			if res.Len() == 3 && ssax.TypeName(res.At(0).Type()) == "vamana.IndexVectorChange" {
-				f = a
-			}
-		}
+		f = classifierOf(w, top)
 	}
 	if f == nil {
 		c.Add("RANK", "anchor:vamana-classification", core.Undecided, "", "the classification closure of IndexVamana.insertUpdateDelete was not found", props...)
@@ -2897,6 +2892,12 @@ func unlinkCovers(w *load.World, c *core.Collector) {
 		}
 		return v
 	}
+	fieldKey := func(v ssa.Value) string {
+		if fa, ok := v.(*ssa.FieldAddr); ok {
+			return fmt.Sprintf("%s#%d", ssax.TypeName(fa.X.Type()), fa.Field)
+		}
+		return ""
+	}
 	set := root(site.Call.Args[len(site.Call.Args)-1])
 	// handed down by a caller: the caller's set, and the caller is where it is filled
 	for i := 0; i < 2; i++ {
@@ -2935,6 +2936,17 @@ func unlinkCovers(w *load.World, c *core.Collector) {
 		return ""
 	}
 	fns := append([]*ssa.Function{home}, home.AnonFuncs...)
+	if cl := classifierOf(w, home); cl != nil {
+		dup := false
+		for _, x := range fns {
+			if x == cl {
+				dup = true
+			}
+		}
+		if !dup {
+			fns = append(fns, cl)
+		}
+	}
 	n := 0
 	updBlocks := map[*ssa.Function][]*ssa.BasicBlock{}
 	defer func() {}()
@@ -2942,7 +2954,10 @@ func unlinkCovers(w *load.World, c *core.Collector) {
 		for _, b := range f.Blocks {
 			for _, in := range b.Instrs {
 				mu, ok := in.(*ssa.MapUpdate)
-				if !ok || root(mu.Map) != set {
+				if !ok {
+					continue
+				}
+				if r := root(mu.Map); r != set && (fieldKey(r) == "" || fieldKey(r) != fieldKey(set)) {
 					continue
 				}
 				n++
@@ -3131,4 +3146,46 @@ func textTermsDistinct(w *load.World, c *core.Collector) {
 	} else {
 		c.Add("RANK", "text:terms-distinct", core.OK, "", fmt.Sprintf("%d slice collections of query terms, all behind a membership test", n), props...)
 	}
+}
+
+// classifierOf: the function that sorts the incoming changes of a write into insert / update /
+// delete: a literal of top with the transform signature, or whatever top hands to
+// TransformWithContext (a method value of a small state struct, say), unwrapped.
+func classifierOf(w *load.World, top *ssa.Function) *ssa.Function {
+	okSig := func(a *ssa.Function) bool {
+		res := a.Signature.Results()
+		return res.Len() == 3 && ssax.TypeName(res.At(0).Type()) == "vamana.IndexVectorChange"
+	}
+	for _, a := range top.AnonFuncs {
+		if okSig(a) {
+			return a
+		}
+	}
+	for _, b := range top.Blocks {
+		for _, in := range b.Instrs {
+			call, ok := in.(*ssa.Call)
+			if !ok || call.Call.StaticCallee() == nil || !strings.Contains(call.Call.StaticCallee().String(), "TransformWithContext") {
+				continue
+			}
+			for _, a := range call.Call.Args {
+				for _, fn := range funcValuesOf(w, a, 0) {
+					if !okSig(fn) {
+						continue
+					}
+					// a bound-method wrapper forwards to the method
+					if fn.Synthetic != "" {
+						for _, fb := range fn.Blocks {
+							for _, fi := range fb.Instrs {
+								if g := ssax.StaticModuleCallee(fi); g != nil && okSig(g) && len(g.Blocks) > 0 {
+									return g
+								}
+							}
+						}
+					}
+					return fn
+				}
+			}
+		}
+	}
+	return nil
 }
